@@ -16,13 +16,52 @@ def reduce(words):
     return keep
 
 
+def _sent(first, n):
+    return " ".join(f"w{first + i}" for i in range(n))
+
+
+def special_documents():
+    """(class, wikitext): shapes inside the property's space that the random grammar hits rarely or never"""
+    out = []
+    # sections whose body consists of bare links only ("Related pages"): the links are visible text
+    out.append(("bare_link_section", "w1\n\n== w2 ==\n* [[w3 w4]]\n* [[w5]]\n\n== w6 ==\nw7\n"))
+    out.append(("bare_link_section", "== w1 ==\n[[w2]]\n\n== w3 ==\nw4 [[w5]] w6\n"))
+    # a tall cell (several paragraphs, > 378 pt estimated height) next to a short / an empty / another tall cell;
+    # table < 2500 characters, cells < 5000 characters
+    tall = "\n\n".join(_sent(1000 + 100 * k, 64) for k in range(3))
+    for name, other in (("tall_cell_next_to_short_cell", "w10 w11"), ("tall_cell_next_to_empty_cell", "")):
+        out.append((name, '{| class="wikitable"\n|-\n! w1 !! w2\n|-\n|\n' + tall + "\n| " + other + "\n|-\n| w20 || w21\n|}\n"))
+    tall2 = "\n\n".join(_sent(2000 + 100 * k, 64) for k in range(3))
+    out.append(("two_tall_cells_in_one_row", '{| class="wikitable"\n|-\n! w1 !! w2\n|-\n|\n' + tall + "\n|\n" + tall2 + "\n|-\n| w20 || w21\n|}\n"))
+    # references
+    out.append(("named_reference_used_before_its_definition", 'w1<ref name="a"/> w2.\n\nw3<ref name="a">w4 w5 w6</ref> w7.\n'))
+    out.append(("named_reference_defined_then_used", 'w1<ref name="a">w4 w5 w6</ref> w2.\n\nw3<ref name="a"/> w7.\n'))
+    # (a second, different definition under an already defined reference name is an error on the wiki itself
+    #  - "defined multiple times with different content" - and outside ordinary content: not generated)
+    out.append(("two_links_to_one_url_in_a_reference", "w1<ref>[http://x.com w2 w3] w4 [http://x.com w5 w6]</ref>.\n"))
+    out.append(("equal_indented_lines_in_one_paragraph", "== w1 ==\nw2 w3\n: w4 w5\nw6 w7\n: w4 w5\nw8 w9\n\nw10 w11\n"))
+    out.append(("caption_of_a_single_cell_table", "w1\n\n{|\n|+ w2 w3\n|-\n| w4 w5\n|}\n\nw6\n"))
+    return out
+
+
+def one_special(item):
+    name, text = item
+    seed, msg, text, nw = _check(text, name)
+    return name, msg, text, nw
+
+
 def one_doc(seed):
+    from contracts import docgrammar as g
+    text, exp = g.document(seed, 6 + seed % 9)
+    return _check(text, seed)
+
+
+def _check(text, seed):
     import io, contextlib, logging
     logging.disable(logging.CRITICAL)
     from contracts import docgrammar as g, docs
     from mwlib.parser import advtree
     from mwlib.parser.treecleaner import TreeCleaner
-    text, exp = g.document(seed, 6 + seed % 9)
     buf = io.StringIO()
     try:
         with contextlib.redirect_stdout(buf), contextlib.redirect_stderr(buf):
@@ -50,7 +89,9 @@ def one_doc(seed):
         return seed, f"cleaner swallowed an error: {errors[0]}"[:300], text, len(before)
     if [w for w, _ in after] != [w for w, _ in before]:
         lost = [w for w, _ in before if w not in dict(after)]
-        return seed, f"visible words changed: lost {lost[:5]} (or duplicated / re-ordered)", text, len(before)
+        if sorted(w for w, _ in after) == sorted(w for w, _ in before):
+            return seed, "visible words re-ordered", text, len(before)
+        return seed, f"visible words changed: lost {lost[:5]} (or duplicated)", text, len(before)
     for (w, a), (_, b) in zip(before, after):
         if a != b:
             return seed, f"word {w} moved from {a} to {b}", text, len(before)
@@ -69,6 +110,17 @@ def run(chk):
             words += nw
             if msg and fail is None:
                 fail = {"detail": f"seed {seed}: {msg}", "witness": {"seed": seed, "wikitext": text}, "class": msg.split(":")[0][:40]}
+    fails2 = {}
+    specials = special_documents()
+    for item in specials:
+        name, msg, text, nw = one_special(item)
+        words += nw
+        if msg:
+            kind = "reordered" if "re-ordered" in msg else ("lost" if "words changed" in msg else msg.split(" ")[0])
+            fails2.setdefault(name, {"detail": f"{name}: {msg} on {text[:160]!r}", "witness": {"shape": name, "wikitext": text}, "class": f"{name}:{kind}"})
+    chk.bounded_result("clean_all_on_special_shapes", len(specials), len({n_ for n_, _ in specials}), True,
+                       "hand-picked shapes inside the property's space: bare-link-only sections, a tall cell next to a short / empty / tall cell, named references in both orders, repeated reference names, two links to one URL in a reference, equal indented lines, the caption of a single-cell table",
+                       list(fails2.values()))
     chk.level_override = "exploration"
     chk.bounded_result("clean_all_keeps_ordinary_content", n, n, False,
                        f"{n} generated ordinary documents (C02 grammar: every section has body text, tables are 2-3 x 2-3, no removal triggers); {words} words: same words in the same order, same section / list-item nesting / reference, tables stay tables, no swallowed ERROR report",
